@@ -250,10 +250,13 @@ static Profile profile(const std::string& name, bool T) {
         p.cfgs.push_back({"m2_h6_h7", {PS(2, 1000000, 6), PS(3, 1000, 7)}, PS(1, 1000, 6)});   // hint masks that keep every other member
         p.runs = {{"", S_MEM, 0}}; p.depth_q = 4; p.depth_t = 5;
     } else if (name == "times") {
-        p.alphabet = {"qr2", "qr4", "qr3", "qr1", "mm0", "mm3", "mm1", "aec0"};
+        p.alphabet = {"qr2", "qr4", "qr3", "qr1", "qr0", "mm0", "mm3", "mm1", "aec0", "act1", "act0", "wb"};
         for (int h : {0, 5, 1}) p.cfgs.push_back({"h" + std::to_string(h), {PS(10000, 1000000, h)}, PS(2, 1000, 0)});
         p.cfgs.push_back({"h5_t1", {PS(10000, 1, 5)}, PS(2, 1000, 0)});
-        p.runs = {{"", S_MEM, 0}}; p.depth_q = 4; p.depth_t = 5; p.auto_flush = true;
+        // two parameter sets whose tick rates differ: the exporter re-uses its block object, so what a block leaves behind (earliest time) meets another rate
+        p.cfgs.push_back({"rates_1e9_1e3", {PS(10000, 1000000000, 0), PS(10000, 1000, 0)}, PS(2, 1000, 0)});
+        p.cfgs.push_back({"rates_1_1e6", {PS(2, 1, 0), PS(10000, 1000000, 0)}, PS(2, 1000, 0)});
+        p.runs = {{"", S_MEM, 0}}; p.depth_q = 5; p.depth_t = 6; p.auto_flush = true;
     } else if (name == "hints-edit") {
         p.alphabet = {"qr0", "qr3", "aec1", "mm0", "edit0", "edit1", "edit2", "wb", "rotx", "rotn", "act1", "act0"};
         p.cfgs.push_back({"two", {PS(2, 1000000, 0), PS(3, 1000, 0)}, PS(2, 1000, 0)});
